@@ -3,6 +3,8 @@
 -/
 import ChessVerif.Model.Movegen
 import ChessVerif.Spec.Rules
+import ChessVerif.Lemmas.Attack
+import ChessVerif.Lemmas.Refine
 namespace Chess.Props
 
 theorem contains_iff_count (k : Nat) (l : List Nat) : l.contains k = decide (1 ≤ countEq k l) := by
@@ -61,8 +63,37 @@ theorem C07_mate_stalemate (p : Position) :
   unfold isCheckmate isStalemate
   cases (genMoves p).isEmpty <;> cases isInCheck p p.side <;> simp
 
-/-- the full statement for the geometric predicates (kept visible; decided by the three-way correspondence):
-    in-check = the rules' attack on the king, insufficient material = bare kings or a single minor -/
+/-- C07 (check): on every board with piece codes 0..12, exactly one king of the side in question, and no enemy king on
+    a neighbouring square, the engine's bitboard test `is_in_check` (pawn and knight masks, magic-table slider lookups)
+    is the rules' definition: the king's square is attacked by a pawn capture, a knight jump or along a ray up to the
+    first piece.  Uses C11 (magic lookups = ray walks, for all occupancies). -/
+theorem C07_check (p : Position) (side k : Nat) (hs : side ≤ 1) (ok : BoardOK p.board) (hk : KingAt p.board side k)
+    (hnear : kingNear p.board k (1 - side) = false) : isInCheck p side = Spec.inCheck p.board side :=
+  isInCheck_eq p side k hs ok hk hnear
+
+/-- C07 (attacks, any square): the same for an arbitrary square — what castling-path and king-move safety rest on -/
+theorem C07_attacked (p : Position) (sq side : Nat) (hs : side ≤ 1) (hk : sq < 64) (ok : BoardOK p.board) :
+    (attackedBB p sq side || kingNear p.board sq (1 - side)) = Spec.attacked p.board sq (1 - side) :=
+  attacked_eq p sq side hs hk ok
+
+/-- C07/C01 (king safety after a move): after any rules-shaped move, "the mover's king is in check" computed by the
+    engine on the position do_move produced equals the rules' verdict on the position the rules prescribe —
+    i.e. the legality filter of the rules can be evaluated on the engine's side (C02 + C07_check) -/
+theorem C07_check_after_move (T : ZTable) (p : Position) (m : Spec.SMove) (ok : StepOK (absPos p) m) (hp : PlyOK p)
+    (hh : p.halfmove < 255) (k : Nat)
+    (hb : BoardOK (doMove T p (codeOf (absPos p) m)).1.board)
+    (hk : KingAt (doMove T p (codeOf (absPos p) m)).1.board p.side k)
+    (hnear : kingNear (doMove T p (codeOf (absPos p) m)).1.board k (1 - p.side) = false) :
+    isInCheck (doMove T p (codeOf (absPos p) m)).1 p.side = Spec.inCheck (Spec.apply (absPos p) m).board p.side := by
+  have h := refine_step T p m ok hp hh
+  have hbd : (doMove T p (codeOf (absPos p) m)).1.board = (Spec.apply (absPos p) m).board := by
+    have := congrArg Spec.SPos.board h.1
+    exact this
+  rw [isInCheck_eq _ p.side k ok.side hb hk hnear, hbd]
+
+/-- the full statement for the geometric predicates (kept visible).  The in-check half is `C07_check` above (under
+    its explicit hypotheses, which `Spec.wf` implies and the driver evaluates at every state line); the material half is
+    decided by the three-way correspondence: insufficient material = bare kings or a single minor -/
 def C07_geometry_Statement : Prop :=
   ∀ (T : ZTable) (s : String), let p := ofFen T s
     Spec.wf ⟨p.board, p.side, p.castling, p.ep, p.halfmove, 1⟩ = true →
